@@ -76,13 +76,13 @@ def r712(ctx, rule='R7.12'):
     from ..model import callee, norm, walk_no_nested, iter_child_stmts
     wr = ctx.repo['writer']
     f = wr.func('consolidate_categories')
-    cmps = [x for x in ast.walk(f) if isinstance(x, ast.Compare) and isinstance(x.left, ast.Attribute) and x.left.attr == 'key']
+    cmps = [x for x in ast.walk(f) if isinstance(x, ast.Compare) and any(isinstance(y, ast.Attribute) and y.attr == 'key' for y in ast.walk(x.left))]
     ctx.floor(rule, 'key comparisons in consolidate_categories', len(cmps), 2)
     for x in cmps:
         c = x.comparators[0]
         both = isinstance(x.ops[0], ast.In) and isinstance(c, (ast.Tuple, ast.List, ast.Set)) and \
             {type(e.value) for e in c.elts if isinstance(e, ast.Constant)} == {bytes, str}
-        tolerant = 'ensure_str(' in norm(x) and 'ignore_error=True' in norm(x)
+        tolerant = 'ensure_str(' in norm(x.left)     # (decodes bytes keys; what it does with undecodable ones is R16.8's subject)
         ctx.ob(rule, 'writer.consolidate_categories:key-matched-in-both-spellings:%s' % norm(x)[:40], both or tolerant,
                '`%s`: metadata built in memory carries str keys, parsed metadata bytes keys' % norm(x), wr.loc(x))
     for q in ('write_simple', 'write_common_metadata'):
